@@ -63,6 +63,15 @@ def join_equal():
         shutil.rmtree(tmp, ignore_errors=True)
 
 
+# scenarios that use feature set U (profile, U, digest mask: 1 log, 2 plan, 4 history, 8 serial)
+USE_SETS = [("neutral", [], 0), ("plans_only", ["PLANS"], 2), ("serial_only", ["SERIAL"], 8), ("history_only", ["HISTORY"], 4)]
+RUNNER_MENU = [
+    [], ["PLANS"], ["SERIAL"], ["HISTORY"], ["LOG"], ["PLANS", "SERIAL"], ["PLANS", "HISTORY"], ["SERIAL", "HISTORY"],
+    vc.FS["ALL"], vc.FS["VERBOSE"], vc.FS["NOLOG"], ["PLANS", "LOG", "NOTYPEINDEX"], ["SERIAL", "STRUCT", "DEBUGTYPE"], ["HISTORY", "VERBOSE"],
+    ["PLANS", "SERIAL", "HISTORY", "NOTYPEINDEX"], ["DEBUGTYPE"], ["STRUCT", "NOTYPEINDEX"],
+]
+
+
 def norm_sig(s):
     import re
     s = re.sub(r"\[with.*", "", s)
@@ -149,72 +158,81 @@ def c19(tier, seed):
             open(p, "w").write(out2[-3000:])
             R.violation(p, "API program crashed / returned %d with switches=%s" % (rc2, combo_name(m)))
     shutil.rmtree(bdir, ignore_errors=True)
-    # (c) metamorphic: feature-neutral scenarios behave identically under every switch combination
+    # (c) metamorphic: a scenario that uses feature set U behaves identically on every runner whose switches include U
     neutral_total, neutral_nontrivial, runners = 0, 0, 0
     samples = []
     if not R.violations:
-        base_ok, base = vc.zoo_binary("MIN", "shipped", "gcc")
-        if not base_ok:
-            print("INCONCLUSIVE: FS_MIN harness does not build:", base)
-            return 2
-        ncases = 3000 if tier == "quick" else 20000
-        corpus = os.path.join(od, "neutral.bin")
-        vc.run(["env", "RC_PARAMS=seed=%d max_success=%d max_size=30" % (seed * 3 + 11, ncases), base, "emit", "--count", str(ncases), "--out", corpus, "--profile", "neutral"])
-        rc, ref = vc.run([base, "digest", "--mode", "2", corpus], timeout=900)
-        ref_lines = [l.split() for l in ref.splitlines() if l and l[0].isdigit()]
-        neutral_total = len(ref_lines)
-        neutral_nontrivial = len(set(l[1] for l in ref_lines if int(l[2], 16) & 2))   # bit 1 = guard cancel
-        named = [("ALL", "shipped"), ("ALL", "dev"), ("VERBOSE", "shipped"), ("NOLOG", "dev"), ("MIN", "dev")]
-        combos = [(n, v) for n, v in named]
-        pick = range(256) if tier == "thorough" else rng.sample(range(1, 256), 8)
-        for m in pick:
-            feats = [s for i, s in enumerate(SWITCHES) if (m >> i) & 1]
-            combos.append((feats, "shipped" if rng.random() < 0.5 else "dev"))
-        for fs, variant in combos:
-            okb, exe = vc.zoo_binary(fs, variant, "gcc")
-            name = fs if isinstance(fs, str) else ("+".join(fs) or "none")
-            if not okb:
-                p = os.path.join(od, "runner-%s-%s.log" % (vc.sha(name)[:8], variant))
-                shutil.copy(exe, p)
-                R.violation(p, "zoo harness (documented API only) does not compile with switches=%s (%s header)" % (name, variant))
-                break
-            rc, out = vc.run([exe, "digest", "--mode", "2", corpus], timeout=900)
-            lines = [l.split() for l in out.splitlines() if l and l[0].isdigit()]
-            runners += 1
-            if len(lines) != len(ref_lines):
-                p = os.path.join(od, "runner-%s-%s.log" % (vc.sha(name)[:8], variant))
-                open(p, "w").write(out[-4000:])
-                R.violation(p, "runner with switches=%s (%s header) crashed or produced %d digests instead of %d" % (name, variant, len(lines), len(ref_lines)))
-                break
-            for a, b in zip(ref_lines, lines):
-                if a[1] != b[1]:
-                    k = int(a[0])
-                    case_path = vp.extract_case(corpus, k, os.path.join(od, "neutral-%d.case" % k))
-                    _, r1 = vc.run([base, "show", case_path])
-                    _, r2 = vc.run([exe, "show", case_path])
-                    open(case_path + ".txt", "w").write("=== no switches ===\n" + r1 + "\n=== " + name + " (" + variant + ") ===\n" + r2)
-                    R.violation(case_path, "feature-neutral scenario #%d behaves differently with switches=%s (%s header) than with no switch: see %s.txt" % (k, name, variant, case_path))
+        ncases = 2500 if tier == "quick" else 15000
+        for ui, (profile, U, mask) in enumerate(USE_SETS):
+            base_ok, base = vc.zoo_binary(U, "shipped", "gcc")
+            if not base_ok:
+                print("INCONCLUSIVE: runner %s does not build: %s" % (U, base))
+                return 2
+            corpus = os.path.join(od, "scen-%s.bin" % profile)
+            vc.run(["env", "RC_PARAMS=seed=%d max_success=%d max_size=30" % (seed * 3 + 11 + ui, ncases), base, "emit", "--count", str(ncases), "--out", corpus, "--profile", profile])
+            rc, ref = vc.run([base, "digest", "--mask", str(mask), corpus], timeout=1800)
+            ref_lines = [l.split() for l in ref.splitlines() if l and l[0].isdigit()]
+            if len(ref_lines) < ncases // 2:
+                R.inconclusive.append("base runner %s crashed on the %s corpus" % (U, profile))
+                continue
+            neutral_total += len(ref_lines)
+            neutral_nontrivial += len(set(l[1] for l in ref_lines if int(l[2], 16) & 2))   # class bit 1 = guard cancel
+            supers = [m for m in RUNNER_MENU if set(U) <= set(m) and m != U]
+            if tier == "quick":
+                must = [m for m in supers if m in (vc.FS["ALL"], vc.FS["NOLOG"])]
+                rest = [m for m in supers if m not in must]
+                supers = must + rng.sample(rest, min(2, len(rest)))
+            elif not U:
+                supers = supers + [[x for i, x in enumerate(SWITCHES) if (m >> i) & 1] for m in range(1, 256)]
+            for k, feats in enumerate(supers):
+                variant = "dev" if (k + ui) % 2 == 0 else "shipped"
+                name = "+".join(feats) or "none"
+                okb, exe = vc.zoo_binary(feats, variant, "gcc")
+                if not okb:
+                    p = os.path.join(od, "runner-%s-%s.log" % (vc.sha(name)[:8], variant))
+                    shutil.copy(exe, p)
+                    R.violation(p, "zoo harness (documented API only) does not compile with switches=%s (%s header)" % (name, variant))
                     break
+                rc, out = vc.run([exe, "digest", "--mask", str(mask), corpus], timeout=1800)
+                lines = [l.split() for l in out.splitlines() if l and l[0].isdigit()]
+                runners += 1
+                if len(lines) != len(ref_lines):
+                    p = os.path.join(od, "runner-%s-%s.log" % (vc.sha(name)[:8], variant))
+                    open(p, "w").write(out[-4000:])
+                    R.violation(p, "runner with switches=%s (%s header) crashed or produced %d digests instead of %d on scenarios using {%s}" % (name, variant, len(lines), len(ref_lines), "+".join(U) or "core API"))
+                    break
+                for x, y in zip(ref_lines, lines):
+                    if x[1] != y[1]:
+                        kk = int(x[0])
+                        case_path = vp.extract_case(corpus, kk, os.path.join(od, "scen-%s-%d.case" % (profile, kk)))
+                        _, r1 = vc.run([base, "show", case_path])
+                        _, r2 = vc.run([exe, "show", case_path])
+                        open(case_path + ".txt", "w").write("=== switches: " + ("+".join(U) or "none") + " ===\n" + r1 + "\n=== switches: " + name + " (" + variant + " header) ===\n" + r2)
+                        R.violation(case_path, "scenario #%d uses only {%s} but behaves differently when the unused switches %s are enabled (%s header): see %s.txt" % (
+                            kk, "+".join(U) or "core API", "+".join(f for f in feats if f not in U), variant, case_path))
+                        break
+                if R.violations:
+                    break
+            if ref_lines and len(samples) < 2:
+                kk = int(ref_lines[len(ref_lines) // 2][0])
+                cp = vp.extract_case(corpus, kk, os.path.join(od, "sample-%s.case" % profile))
+                _, s1 = vc.run([base, "show", cp])
+                samples.append("scenario #%d using {%s} (replayed on every runner whose switches include them):\n%s" % (kk, "+".join(U) or "core API", s1[:2500]))
             if R.violations:
                 break
-        if ref_lines:
-            k = int(ref_lines[len(ref_lines) // 2][0])
-            cp = vp.extract_case(corpus, k, os.path.join(od, "sample.case"))
-            _, s1 = vc.run([base, "show", cp])
-            samples.append("feature-neutral scenario #%d (replayed on every runner):\n%s" % (k, s1[:3000]))
     samples.append("matrix row: switches=%s std=%s compiler=%s header=%s -> %s" % (combo_name(rows[len(rows) // 3][0]) if rows[len(rows) // 3][0] >= 0 else "ALL", rows[len(rows) // 3][1], rows[len(rows) // 3][2], rows[len(rows) // 3][3], "ok"))
-    R.coverage["evaluations"] = len(rows) + nlink + neutral_total * max(1, runners)
+    R.coverage["evaluations"] = len(rows) + nlink + (neutral_total // max(1, len(USE_SETS))) * max(1, runners)
     R.coverage["distinct_nontrivial"] = sum(1 for r in rows if r[0] < 0 or bin(r[0]).count("1") >= 3) + neutral_nontrivial
     R.coverage["samples"] = samples
     R.coverage["engines"] = {
         "compile_matrix(-fsyntax-only)": {"rows": len(rows), "of_total": 257 * 16, "failed": len(failed)},
         "build_and_run": {"programs": nlink},
-        "neutral_scenarios": {"cases": neutral_total, "runners_compared_to_FS_MIN": runners, "cases_with_guard_veto": neutral_nontrivial},
+        "unused_feature_scenarios": {"cases": neutral_total, "use_sets": [u[1] for u in USE_SETS], "runner_comparisons": runners, "cases_with_guard_veto": neutral_nontrivial},
         "header_equality": {"join.py_output_equals_shipped_header": ok},
     }
     return R.finish("matrix rows = (switch subset of the 8 documented switches or FFSM2_ENABLE_ALL) x {c++11,14,17,20} x {g++,clang++} x {shipped,dev header} compiling an API-instantiating program "
-                    "(thorough: all 4112 rows; quick: 2 full 257-row slices + a seed-chosen 1/8 of the rest); feature-neutral scenarios = rapidcheck-generated core-API cases replayed on runners built with different "
-                    "switch subsets, digests compared with the no-switch runner; non-trivial = matrix rows with >= 3 switches on, plus distinct neutral scenarios containing >= 1 guard veto",
+                    "(thorough: all 4112 rows; quick: 2 full 257-row slices + a seed-chosen 1/8 of the rest); unused-feature scenarios = rapidcheck-generated cases that use only a feature set U (none / plans / serialization / history), replayed on "
+                    "runners whose switches are supersets of U, digests compared with the runner built with exactly U; non-trivial = matrix rows with >= 3 switches on, plus distinct neutral scenarios containing >= 1 guard veto",
                     extra={"exhaustive": tier == "thorough"},
                     assumptions=["two compilers (g++ 12, clang++ 14) and four language modes; MSVC-only paths are out of reach", "header equality is one deterministic byte comparison, backed by every behavioural check running on both header variants"])
 
@@ -568,7 +586,9 @@ def setup_extra():
         r, _, log = container_binaries(variant, "san", BOUNDARY_SHARDS)
         ok = ok and r
     r, _, _, _ = sizes_binaries(sizes_plan("quick", vc.seed()))
-    vc.zoo_binary("MIN", "shipped", "gcc")
+    for feats in RUNNER_MENU:
+        for variant in ("shipped", "dev"):
+            vc.zoo_binary(feats, variant, "gcc")
     return ok and r
 
 
